@@ -228,6 +228,46 @@ func runC16(c *core.Ctx) {
 		cs.Eval(8 << 8)
 		cs.DistinctN(4 << 8)
 	})
+	// status vector chunks whose list is shorter than the chunk can hold (the last chunk of a
+	// feedback usually is): every list of 0..14 one-bit and 0..7 two-bit symbols. The word is the
+	// symbols left-aligned and zero-filled; decoding it gives the list padded with zeros.
+	c.Exhaustive("StatusVectorChunk: all symbol lists of length 0..14 (one bit) and 0..7 (two bits)", 32767+21845)
+	c.Section("twcc-short-vectors", 15+8, func(cs *core.Case) {
+		two := cs.Idx >= 15
+		n := int(cs.Idx)
+		bits, full := uint(1), 14
+		if two {
+			n, bits, full = int(cs.Idx)-15, 2, 7
+		}
+		for x := 0; x < 1<<(bits*uint(n)); x++ {
+			list := make([]uint16, n)
+			for i := range list {
+				list[i] = uint16(x>>(bits*uint(n-1-i))) & (1<<bits - 1)
+			}
+			v := rtcp.StatusVectorChunk{Type: 1, SymbolSize: uint16(bits - 1), SymbolList: list}
+			want, _ := ref.TWCCChunkWord(&v)
+			out, err := v.Marshal()
+			if err != nil || len(out) != 2 || uint16(out[0])<<8|uint16(out[1]) != want {
+				cs.Fail("vector/short-list-encode", core.W{"value": vdump(v), "octets": mon.Hex(out, 4), "expected_word": fmt.Sprintf("%04x", want), "error": errStr(err)})
+				return
+			}
+			var d rtcp.StatusVectorChunk
+			ok := d.Unmarshal(out) == nil && len(d.SymbolList) == full
+			for i := 0; ok && i < full; i++ {
+				w := uint16(0)
+				if i < n {
+					w = list[i]
+				}
+				ok = d.SymbolList[i] == w
+			}
+			if !ok {
+				cs.Fail("vector/short-list-decode", core.W{"value": vdump(v), "octets": mon.Hex(out, 4), "decoded": vdump(d)})
+				return
+			}
+		}
+		cs.Eval(2 << (bits * uint(n)))
+		cs.DistinctN(1 << (bits * uint(n)))
+	})
 	// chunk decoders take exactly 2 octets
 	c.Once("twcc-chunk-lengths", func(cs *core.Case) {
 		for n := 0; n <= 5; n++ {
